@@ -1170,3 +1170,25 @@ class _R6Fallback(_R6Plugin):
 def case_r6_registry_filled_at_import():
     return [_R6Plugin.of("XOR").label(), _R6Plugin.of("OR").label(), _R6Plugin.of("ALT").label(), _R6Plugin.of("?").label(),
             [t for t, _ in _R6Plugin.registered]]
+
+
+def case_r6_lazy_builtins():
+    log = []
+
+    def noisy(x):
+        log.append(x)
+        return x * 2
+    m = map(noisy, [1, 2, 3])
+    before = list(log)
+    first = next(m)
+    numbered = list(zip(_itl.count(1), "abc"))
+    evens = filter(lambda v: v % 2 == 0, _itl.count())
+    firsts = [next(evens), next(evens)]
+    pairs = list(enumerate(_itl.islice(_itl.count(10), 3), start=1))
+    gen = (i for i in range(3))
+    z = zip(gen, "xy")
+    zl = list(z)
+    leftover = list(gen)
+    mm = map(lambda a, b: a + b, [1, 2, 3], _itl.count(100))
+    return [before, first, list(log), list(m), log, numbered, firsts, pairs, zl, leftover, list(mm), sum(map(len, ["a", "bb"])),
+            any(map(lambda v: v > 2, _itl.count())), dict(zip("ab", _itl.count()))]
